@@ -84,7 +84,12 @@ class World:
         gc.collect()
         gc.freeze()  # what earlier histories left behind is plain data: keep it out of the per-event collections
         stubs.set_term(size=(cols, rows), cell=CELL)
-        stubs.set_identity(ident)
+        # "forced": a terminal that is neither kitty nor Konsole (identifies as WezTerm, does not answer the
+        # kitty graphics query) used with KittyImage.forced_support = True
+        from term_image.image import KittyImage
+
+        KittyImage.forced_support = ident == "forced"
+        stubs.set_identity("wezterm" if ident == "forced" else ident)
         for name in ("_ti_free_z_indexes", "_ti_next_z_index", "_ti_get_z_index"):
             if not hasattr(UrwidImage, name):
                 raise MachineryError(f"seam UrwidImage.{name} is missing")
@@ -250,7 +255,9 @@ class World:
         return ev
 
     # --------------------------------------------------------------- operations
-    def new(self, style: str, nw: int, nh: int, sub: int = 0) -> int:
+    def new(self, style: str, nw: int, nh: int, sub: int = 0, fs: str = "") -> int:
+        """fs: extra style fields of the widget's format spec (z<index>, m<mix>, c<compress>); the
+        z field is documented as ignored by UrwidImage."""
         from PIL import Image
         from term_image.exceptions import UrwidImageError
         from term_image.image import BlockImage, ITerm2Image, KittyImage
@@ -262,7 +269,7 @@ class World:
         im.putdata([(rng.randrange(256), rng.randrange(256), rng.randrange(256)) for _ in range(pw * ph)])
         image = cls(im)
         try:
-            widget = self.classes[sub](image, "" if style == "block" else "+L")
+            widget = self.classes[sub](image, "" if style == "block" else "+L" + fs)
         except UrwidImageError as e:
             self._event("new", exc=type(e).__name__, style=style)
             return 0
@@ -405,6 +412,12 @@ class World:
                 self.screen.stop()
             except Exception:
                 pass
+        try:
+            from term_image.image import KittyImage
+
+            KittyImage.forced_support = False
+        except Exception:
+            pass
         self.last_canvas = None
         self.widgets.clear()
         self.screen = None
